@@ -222,6 +222,13 @@ def cases(ctx):
                 op, path, args, doc, long_only = F[name]
                 yield dict(op=op + " " + mb, real=("h:props.C14.klass", [path, args, mb]), pred=["pred_class", True, 112, long_only, path],
                            tag="boundary-char", info=dict(df=20, tc=0, st2=None, n=112, long_only=long_only, fn=path))
+    for code in range(256):
+        f = spec.df_frame(rng, 11, 56, [], overlay_addr=code)
+        m = hex_of(f)
+        for name in ("pyModeS.allcall.interrogator", "pyModeS.allcall.capability", "h:props.C14.tell_quiet"):
+            op, path, args, doc, long_only = F[name]
+            yield dict(op=(op + " " + m) if op else None, real=("h:props.C14.klass", [path, args, m]), pred=["pred_class", True, 56, long_only, path],
+                       tag="boundary-ic", info=dict(df=11, tc=0, st2=None, n=56, long_only=long_only, fn=path))
     styles = ["zero", "one", "rand", "rand"] if not ctx.thorough else ["zero", "one"] + ["rand"] * 6
     for df in range(32):
         tcs = range(32) if df in (17, 18) else [rng.randrange(32), rng.randrange(32)]
